@@ -9,8 +9,11 @@ from harness.worker import Stream
 
 OBLIGATIONS = [
     "PgmVerif.C12_extension_sound", "PgmVerif.C12_cpdag_directed_sound", "PgmVerif.C12_class_members", "PgmVerif.isAcyclicG_sound",
+    "PgmVerif.C12_adjacent_never_separated", "PgmVerif.C12_parents_separate", "PgmVerif.C12_nonadjacent_separable",
 ]
-PARTIAL = ["skeleton exactness of the level-wise search, soundness and completeness of the orientation rules (Meek) and completeness of the "
+PARTIAL = ["the graph-theoretic core of skeleton exactness is proved for every DAG (a true edge is never separable; the parents of one end point "
+           "separate every non-adjacent pair); that the level-wise loops of the three variants enumerate those parent sets is not modelled; "
+           "soundness and completeness of the orientation rules (Meek) and completeness of the "
            "Dor-Tarsi sink removal are decided exhaustively: all DAGs on <= 4 nodes (quick) / 5 nodes (thorough) as ground truth, both "
            "sequential variants, against the enumerated Markov class of the Lean spec"]
 RULE = ("ground truth = every labelled DAG on 2-4 nodes (all 5-node DAGs in thorough, random 6-node DAGs) x variants orig/stable (parallel "
@@ -20,13 +23,16 @@ ASSUMPTIONS = ["max_cond_vars >= number of nodes (>= max degree)"]
 BUDGET_QUICK = 120
 LEVEL_TEXT = ("Kernel-checked on the specification side: a graph accepted by the model's extension predicate is acyclic, has the PDAG's "
               "skeleton, keeps all its directed edges and has exactly its v-structures; every edge the spec CPDAG directs has that direction in "
-              "every member of the enumerated Markov class, and the class contains the ground-truth DAG. The implementation is decided by "
+              "every member of the enumerated Markov class, and the class contains the ground-truth DAG. For EVERY acyclic graph the "
+              "d-separation traversal of the model (proved equal to the textbook definition in C08) reports adjacent nodes as dependent given "
+              "every conditioning set, and reports u, v as independent given pa(u) whenever v is a non-adjacent non-descendant of u - so a "
+              "separating set exists for exactly the non-adjacent pairs, which is what makes the PC skeleton phase exact. The implementation is decided by "
               "exhaustive differential runs against that spec: skeleton, separating sets (each must d-separate its pair in the Lean "
               "d-separation spec), CPDAG (directed and undirected parts) and DAG output of every PC variant for every ground-truth DAG up to "
               "4/5 nodes under 6 hash seeds, and PDAG.to_dag on all their CPDAGs and random extendable PDAGs (partial: no proof of the "
               "level-wise search, the Meek rules or Dor-Tarsi completeness).")
 LEVEL_NOTE = "Trusted: Lean kernel + standard axioms; spec by enumeration; harness."
-TECHNIQUE = "Lean 4 spec (Markov class by enumeration, extension predicate) with soundness lemmas + exhaustive differential check of PC / to_dag"
+TECHNIQUE = "Lean 4 proof (skeleton characterisation by d-separation, extension predicate soundness, Markov class by enumeration) + exhaustive differential check of PC / to_dag"
 
 NAMES = ["A", "B", "C", "D", "E", "F"]
 _D = {}
